@@ -28,9 +28,7 @@ CHEAP = ["uniform", "halton", "rseq", "bestbatch", "pso"]
 def state_of(folder, model):
     from black_it.calibrator import Calibrator
     cal = Calibrator.restore_from_checkpoint(folder, model=model)
-    st = calibrator_state(cal)
-    st["samplers_id_table"] = dict(cal.samplers_id_table)
-    return st
+    return calibrator_state(cal)
 
 
 class C06Sim(calsim.CalSim):
@@ -48,6 +46,12 @@ class C06Sim(calsim.CalSim):
         F = self.new_folder("F")  # noqa: N806
         scratch = self.new_folder("crash")
         pre = scn["prestate"]
+        if scn.get("warm_saves"):
+            # the save under test is not the first one this process performs (per-process state of the saving code)
+            warm = self.new_folder("warm")
+            for _ in range(scn["warm_saves"]):
+                cal.create_checkpoint(warm)
+            res.stats["warm-up-saves"] += scn["warm_saves"]
         if pre == "other-run":
             # the folder holds the checkpoint of a different calibration (other shapes)
             other = self.build(scn["other_config"], folder=None)
@@ -102,6 +106,8 @@ class C06Sim(calsim.CalSim):
             res.stats[f"crash-state:{cls}"] += 1
             if k is None and kind != "before-save":
                 self.save_on_top(cal, scratch, new_state, f"crash after trace operation {i} ({kind} on {fname})", f"{fname}:{kind}")
+            if cls == "hybrid" and self.outcomes[(cls, fname, kind)] > 3:
+                continue            # enough of this kind at this site: bounded cost on a broken tree
             if cls == "hybrid":
                 d_new = deep_diff(got, new_state)[:2]
                 d_old = deep_diff(got, old_state)[:2] if old_state is not None else ["(no previous checkpoint)"]
@@ -445,6 +451,8 @@ class C06(Check):
         scn = {"engine": "diskcrash", "backend": backend, "config": cfg, "ops": [], "k_old": rng.randint(1, 3), "k_new": rng.randint(1, 2),
                "prestate": rng.choice(["none", "same-run", "same-run", "other-run"] if backend == "json" else ["none", "same-run", "same-run"]),
                "byte_step": 7 if tier == "quick" else 1, "sim_seed": rng.randrange(2 ** 31), "big": big}
+        if rng.random() < 0.4:
+            scn["warm_saves"] = rng.randint(1, 2)
         if big:
             scn["prestate"] = "same-run"
         if backend == "json" and (i % 40 == 5 if tier == "thorough" else i == 5):
@@ -486,6 +494,10 @@ class C06(Check):
         if scn["prestate"] == "other-run":
             c = copy.deepcopy(scn)
             c["prestate"] = "same-run"
+            yield c
+        if scn.get("warm_saves"):
+            c = copy.deepcopy(scn)
+            c["warm_saves"] -= 1
             yield c
         for c in calsim.shrink_scn(scn):
             yield c
